@@ -1,7 +1,273 @@
 import Driver.Wire
-/-! Driver commands of the Gc area (filled in by the area's owner). -/
+import Marwood.Heap.Gc
+import Marwood.Heap.Check
+import Marwood.Spec.Reach
+/-! Driver commands of the Gc area: heap snapshots through the collector model and the
+reachability specification; Heap API operation sequences. Wire format: harness/src/gc_snapshot.rs. -/
 namespace Marwood.Driver.Gc
+open Marwood Marwood.Heap Marwood.Spec
 
-def handle (_cmd : String) (_args : List String) : Option String := none
+abbrev P := StateT (List String) Option
+
+def tok : P String := fun
+  | [] => none
+  | t :: ts => some (t, ts)
+
+def nat : P Nat := do
+  let t ← tok
+  match t.toNat? with
+  | some n => pure n
+  | none => failure
+
+def rep {α} (n : Nat) (p : P α) : P (List α) := do
+  let mut acc : Array α := #[]
+  for _ in [0:n] do
+    acc := acc.push (← p)
+  pure acc.toList
+
+def atomOf : String → Option Atom
+  | "U" => some .undefined | "V" => some .void | "N" => some .nil | "B" => some .bool
+  | "C" => some .char | "#" => some .number | "S" => some .string | "A" => some .acc
+  | "an" => some .argc | "bp" => some .basePtr | "bo" => some .bpOffset | "bi" => some .builtin
+  | "gs" => some .globSlot | "ls" => some .lexSlot | "M" => some .macro_
+  | _ => none
+
+def atomStr : Atom → String
+  | .undefined => "U" | .void => "V" | .nil => "N" | .bool => "B" | .char => "C" | .number => "#"
+  | .string => "S" | .acc => "A" | .argc => "an" | .basePtr => "bp" | .bpOffset => "bo"
+  | .builtin => "bi" | .globSlot => "gs" | .lexSlot => "ls" | .macro_ => "M"
+
+partial def vcell : P VCell := do
+  let t ← tok
+  match atomOf t with
+  | some a => pure (.atom a)
+  | none =>
+  if t == "P" then do pure (.pair (← nat) (← nat))
+  else if t == "p" then do pure (.ptr (← nat))
+  else if t == "K" then do pure (.closure (← nat) (← nat))
+  else if t == "E" then do pure (.envPtr (← nat))
+  else if t == "L" then do pure (.lexEnvPtr (← nat) (← nat))
+  else if t == "I" then do pure (.ip (← nat) (← nat))
+  else if t == "e" then do
+    let n ← nat
+    pure (.lexEnv (← rep n vcell))
+  else if t == "v" then do
+    let n ← nat
+    pure (.vector (← rep n vcell))
+  else if t == "l" then do
+    let nb ← nat; let na ← nat; let ne ← nat
+    let bc ← rep nb vcell
+    let args ← rep na vcell
+    let em ← rep ne vcell
+    pure (.lambda bc args em)
+  else if t == "k" then do
+    let n ← nat
+    let st ← rep n vcell
+    pure (.cont st (← nat) (← nat))
+  else if t.startsWith "y:" then
+    match Wire.decText (t.drop 2).toString with
+    | some name => pure (.symbol name)
+    | none => failure
+  else if t.startsWith "o" then
+    match (t.drop 1).toString.toNat? >>= Op.ofNat? with
+    | some o => pure (.opcode o)
+    | none => failure
+  else failure
+
+partial def encVCell : VCell → String
+  | .atom a => atomStr a
+  | .opcode o => s!"o{o.toNat}"
+  | .symbol n => "y:" ++ Wire.encText n
+  | .pair a d => s!"P {a} {d}"
+  | .ptr p => s!"p {p}"
+  | .closure l e => s!"K {l} {e}"
+  | .envPtr p => s!"E {p}"
+  | .lexEnvPtr p s => s!"L {p} {s}"
+  | .ip l o => s!"I {l} {o}"
+  | .lexEnv ss => s!"e {ss.length}" ++ String.join (ss.map fun c => " " ++ encVCell c)
+  | .vector ss => s!"v {ss.length}" ++ String.join (ss.map fun c => " " ++ encVCell c)
+  | .lambda bc a e => s!"l {bc.length} {a.length} {e.length}" ++
+      String.join ((bc ++ a ++ e).map fun c => " " ++ encVCell c)
+  | .cont st l e => s!"k {st.length}" ++ String.join (st.map fun c => " " ++ encVCell c) ++ s!" {l} {e}"
+
+def stateOf : String → Option GcState
+  | "f" => some .free | "a" => some .allocated | "u" => some .used | _ => none
+
+def expect (s : String) : P Unit := do
+  let t ← tok
+  if t == s then pure () else failure
+
+def heap : P Heap := do
+  expect "h"
+  let chunk ← nat
+  let cap ← nat
+  let m ← nat
+  let mut cells : Array VCell := Array.replicate cap VCell.undefined
+  let mut gc : Array GcState := Array.replicate cap GcState.free
+  for _ in [0:m] do
+    let i ← nat
+    let st ← tok
+    let c ← vcell
+    match stateOf st with
+    | none => failure
+    | some s =>
+      if i < cap then
+        cells := cells.set! i c
+        gc := gc.set! i s
+      else failure
+  expect "f"
+  let nf ← nat
+  let fl ← rep nf nat
+  expect "t"
+  let nt ← nat
+  let tab ← rep nt (do
+    let name ← tok
+    let a ← nat
+    match Wire.decText name with
+    | some n => pure (n, a)
+    | none => failure)
+  -- the Vec's last element is the head of the model's list
+  pure { chunk := chunk, cells := cells, gc := gc, free := fl.reverse, symtab := tab }
+
+def roots : P Roots := do
+  expect "r"
+  let n ← nat
+  let syms ← rep n nat
+  let n ← nat
+  let slots ← rep n vcell
+  let n ← nat
+  let stack ← rep n vcell
+  let acc ← vcell
+  let ipl ← nat
+  let ep ← nat
+  pure { globalSyms := syms, globalSlots := slots, stack := stack, acc := acc, ipLam := ipl, ep := ep }
+
+/-! ## rendering -/
+
+def ranges (v : List Nat) : String :=
+  -- v sorted ascending; duplicates are kept as repeated singletons
+  let rec go (lo hi : Nat) : List Nat → List String
+    | [] => [if lo == hi then s!"{lo}" else s!"{lo}-{hi}"]
+    | x :: xs =>
+      if x == hi + 1 then go lo x xs
+      else (if lo == hi then s!"{lo}" else s!"{lo}-{hi}") :: go x x xs
+  match v with
+  | [] => "-"
+  | x :: xs => ",".intercalate (go x x xs)
+
+def sortNat (l : List Nat) : List Nat := l.mergeSort (· ≤ ·)
+
+def summary (h : Heap) : String :=
+  let idx := List.range h.cells.size
+  let alloc := idx.filter fun i => h.gc[i]? != some GcState.free
+  let used := (idx.filter fun i => h.gc[i]? == some GcState.used).length
+  let tab := (h.symtab.map fun (n, a) => (a, Wire.encText n)).mergeSort
+    fun x y => x.1 < y.1 || (x.1 == y.1 && x.2 ≤ y.2)
+  let tabs := if tab.isEmpty then "-" else ";".intercalate (tab.map fun (a, n) => s!"{a}={n}")
+  s!"c{h.cells.size} a{ranges alloc} f{ranges (sortNat h.free)} u{used} t{tabs}"
+
+def stChar : Option GcState → String
+  | some .free => "f" | some .allocated => "a" | some .used => "u" | none => "?"
+
+def fullState (h : Heap) : String :=
+  let cs := (List.range h.cells.size).map fun i =>
+    stChar h.gc[i]? ++ ":" ++ ((encVCell (h.cells[i]?.getD VCell.undefined)).replace " " "_")
+  " ".intercalate cs ++ " fl" ++ String.join (h.free.reverse.map fun a => s!" {a}")
+
+/-! ## commands -/
+
+def runP {α} (p : P α) (args : List String) : Option α :=
+  match p args with
+  | some (a, []) => some a
+  | _ => none
+
+def gcRun (args : List String) : Option String := do
+  let (fixed, h, r) ← runP (do
+    let f ← nat
+    let h ← heap
+    let r ← roots
+    pure (f != 0, h, r)) args
+  let wfBefore := match Check.wfCheck fixed h r with
+    | none => "ok" | some e => e
+  match Heap.runGc fixed true h r with
+  | .error e => some s!"panic {e}"
+  | .ok .fuelExhausted => some "fuel"
+  | .ok (.skipped _) => some "skipped"
+  | .ok (.collected h') =>
+    let wfAfter := match Check.wfCheck fixed h' r with
+      | none => "ok" | some e => e
+    some s!"ok {summary h'} W{wfBefore}/{wfAfter}"
+
+def gcReach (args : List String) : Option String := do
+  let (h, r) ← runP (do
+    let h ← heap
+    let r ← roots
+    pure (h, r)) args
+  match liveArr h r with
+  | none => some "fuel"
+  | some a =>
+    let live := (List.range a.size).filter fun i => a[i]? == some true
+    some s!"ok a{ranges live}"
+
+/-- C03 exploration: the reference transcript *is* the specification of the scheduled run -/
+def gcObs (args : List String) : Option String :=
+  match args.getLast? with
+  | some a => if a.startsWith "ref=" then some (a.drop 4).toString else none
+  | none => none
+
+inductive HOp
+  | put (c : VCell) | mput (c : VCell) | alloc | free (p : Nat) | mark (p : Nat) | sweep | grow
+
+partial def hops : P (List HOp) := fun ts =>
+  match ts with
+  | [] => some ([], [])
+  | _ => (do
+    let t ← tok
+    let op ← (if t == "put" then do pure (HOp.put (← vcell))
+      else if t == "mput" then do pure (HOp.mput (← vcell))
+      else if t == "alloc" then pure HOp.alloc
+      else if t == "free" then do pure (HOp.free (← nat))
+      else if t == "mark" then do pure (HOp.mark (← nat))
+      else if t == "sweep" then pure HOp.sweep
+      else if t == "grow" then pure HOp.grow
+      else failure)
+    let rest ← hops
+    pure (op :: rest)) ts
+
+def heapOps (args : List String) : Option String := do
+  let (chunk, ops) ← runP (do
+    let c ← nat
+    let ops ← hops
+    pure (c, ops)) args
+  let fixed := true
+  let rec go (h : Heap) (out : Array String) : List HOp → Except String (Heap × Array String)
+    | [] => .ok (h, out)
+    | op :: rest =>
+      match op with
+      | .put c => do let (h', v) ← h.put c; go h' (out.push ((encVCell v).replace " " "_")) rest
+      | .mput c => do let (h', v) ← h.maybePut c; go h' (out.push ((encVCell v).replace " " "_")) rest
+      | .alloc => do let (h', p) ← h.alloc; go h' (out.push s!"{p}") rest
+      | .free p => do let h' ← h.free' p; go h' (out.push "-") rest
+      | .mark p =>
+        match h.mark fixed [p] with
+        | some h' => go h' (out.push "-") rest
+        | none => .error "fuel"
+      | .sweep => do let h' ← h.sweep; go h' (out.push "-") rest
+      | .grow => do let h' ← h.grow; go h' (out.push "-") rest
+  match Heap.new chunk with
+  | .error _ => some "panic"
+  | .ok h0 =>
+    match go h0 #[] ops with
+    | .error "fuel" => some "fuel"
+    | .error _ => some "panic"
+    | .ok (h, out) => some s!"ok {" ".intercalate out.toList} | {summary h} | {fullState h}"
+
+def handle (cmd : String) (args : List String) : Option String :=
+  match cmd with
+  | "gc-run" => gcRun args
+  | "gc-reach" => gcReach args
+  | "gc-obs" => gcObs args
+  | "heap-ops" => heapOps args
+  | _ => none
 
 end Marwood.Driver.Gc
